@@ -38,7 +38,8 @@ G_PLAIN = 'start: (A | B)+ [C]\nA: "a"\nB: "b"\nC: "c"\n'
 G_OTHER = 'start: (A | B)* C\nA: "a"\nB: "b"\nC: "c"\n'
 M_V = {0: 'x: "a"\n', 1: 'x: "b"\n', 2: 'x: "a" "a"\n'}
 M_SHADOW = 'x: "b" "a"\n'
-GRAMMARS = {'imp2': G_IMP2, 'pkg': G_PKG, 'imp': G_IMP, 'plain': G_PLAIN, 'other': G_OTHER, 'plain-cmt': G_PLAIN + '//', 'plain-cmt-kw': G_PLAIN + '//keep_all_tokensTrue'}
+PK_ALT = 'k: "c" "c"\n'      # the same module name under another search path of the package loader
+GRAMMARS = {'imp2': G_IMP2, 'pkg': G_PKG, 'pkg-alt': G_PKG, 'imp': G_IMP, 'plain': G_PLAIN, 'other': G_OTHER, 'plain-cmt': G_PLAIN + '//', 'plain-cmt-kw': G_PLAIN + '//keep_all_tokensTrue'}
 OPTS = {'o0': {}, 'keep': {'keep_all_tokens': True}, 'noph': {'maybe_placeholders': False}, 'basic': {'lexer': 'basic'},
         'start-y': {'start': 'y'}, 'prio-none': {'priority': None}}
 INPUTS = list(util.strings('abc', 3))
@@ -83,6 +84,9 @@ class Env:
         with open(os.path.join(root, self.pkg, '__init__.py'), 'w') as f:
             f.write('')
         self.set_pkg(0)
+        os.makedirs(os.path.join(root, self.pkg, 'alt'))
+        with open(os.path.join(root, self.pkg, 'alt', 'pk.lark'), 'w') as f:
+            f.write(PK_ALT)
         sys.path.insert(0, root)
 
     def set_import(self, v):
@@ -115,9 +119,9 @@ class Env:
 
 def construct(env, g, o, cached):
     paths = [env.d1, env.d2]
-    if g == 'pkg':
+    if g in ('pkg', 'pkg-alt'):
         from lark.load_grammar import FromPackageLoader
-        paths = paths + [FromPackageLoader(env.pkg, ('',))]
+        paths = paths + [FromPackageLoader(env.pkg, ('',) if g == 'pkg' else ('alt',))]
     opts = dict(parser='lalr', import_paths=paths, **OPTS[o])
     # keep_all_tokens must be the *first* keyword for the key-concatenation corner: pass options in a fixed order
     if 'keep_all_tokens' in opts:
@@ -261,7 +265,7 @@ def run_faults(g, o, Bb64, kind, lo, hi, masks, res, only=None):
 def events(tier):
     ev = [('build', g, o) for g, o in (('imp', 'o0'), ('imp', 'keep'), ('imp', 'noph'), ('plain', 'o0'), ('plain', 'keep'), ('plain', 'noph'),
                                       ('plain', 'prio-none'), ('other', 'o0'), ('plain-cmt', 'keep'), ('plain-cmt-kw', 'o0'), ('imp', 'start-y'), ('plain', 'edit'))]
-    ev += [('build', 'imp2', 'o0'), ('build', 'pkg', 'o0'), ('edit-n', 1), ('edit-pkg', 1)]
+    ev += [('build', 'imp2', 'o0'), ('build', 'pkg', 'o0'), ('build', 'pkg-alt', 'o0'), ('edit-n', 1), ('edit-pkg', 1)]
     ev += [('edit', 1), ('edit', 2), ('edit', 0), ('shadow', True), ('version', '9.9.9'), ('pyversion', (2, 7)), ('truncate',), ('garbage',)]
     return ev
 
